@@ -142,30 +142,41 @@ def direction_problems(w, log_start):
 
 # ------------------------------------------------------------------ operations
 
-def est_index(ep, need_child=False):
-    for i, s in enumerate(ep.controller.ike_sas):
-        if s.state == State.ESTABLISHED and (s.child_sas or not need_child):
-            return i
-    return None
+def est_index(ep, need_child=False, last=False):
+    idx = [i for i, s in enumerate(ep.controller.ike_sas) if s.state == State.ESTABLISHED and (s.child_sas or not need_child)]
+    if not idx:
+        return None
+    return idx[-1] if last else idx[0]
 
 
-def do_op(w, op, flow=None):
+def trigger(w, op, flow=None):
+    """starts one negotiation (no delivery); 'opA' acts on A's first established IKE_SA, 'opA~' on its last one"""
+    last = op.endswith('~')
+    op = op.rstrip('~')
     who = op[-1]
     ep = w.endpoints[who]
     if op.startswith('new'):
         w.step(('acquire', who, 0, 0) + (tuple(flow) if flow else ()))
     elif op.startswith('rekeyChild'):
-        i = est_index(ep, True)
+        i = est_index(ep, True, last)
         if i is None:
             return False
         w.step(('expire', who, bytes(ep.controller.ike_sas[i].child_sas[0].inbound_spi), False))
     elif op.startswith('rekeyIke'):
-        i = est_index(ep)
+        i = est_index(ep, False, last)
         if i is None:
             return False
         w.step(('due', who, i, 'rekey_ike'))
-    w.deliver_all()
     return True
+
+
+def do_op(w, op, flow=None):
+    """'x' = one negotiation run to completion; 'x|y' = two negotiations started before anything is delivered"""
+    ok = False
+    for part in op.split('|'):
+        ok = trigger(w, part, flow) or ok
+    w.deliver_all()
+    return ok
 
 
 def run_case(case):
@@ -182,6 +193,8 @@ def run_case(case):
         mark = len(w.sent_log)
         if op.startswith('init'):
             w.step(('acquire', op[-1], 0, 0) + (tuple(case['flow']) if case.get('flow') else ()))
+            if case.get('start') == 'double':       # the peer initiates at the same moment: two IKE_SAs per endpoint
+                w.step(('acquire', 'B' if op[-1] == 'A' else 'A', 0, 0))
             w.deliver_all()
         elif not do_op(w, op):
             continue
@@ -194,7 +207,8 @@ def run_case(case):
             return probs, completed, world_digest(w)
         completed += 1
         for sig, msg in mirror_problems(w) + direction_problems(w, mark):
-            probs.append(('%s:after-%s' % (sig, op.rstrip('AB') if not op.startswith('init') else 'init'), msg + ' [after %s]' % op))
+            opname = 'init' if op.startswith('init') else '|'.join(x.rstrip('~').rstrip('AB') for x in op.split('|'))
+            probs.append(('%s:after-%s' % (sig, opname), msg + ' [after %s]' % op))
         if probs:
             break
     return probs, completed, world_digest(w)
@@ -287,7 +301,8 @@ def cases():
                             ops=('rekeyChildB', 'rekeyChildA', 'new' + init), initiator=init))
     # (c) histories: every sequence of operations up to length k, three ways of starting
     k = 2 if ck.quick else 3
-    for start, conf in (('plain', S.base_confs()), ('cookie', S.base_confs()),
+    ke = dict(a_over={'dh': ['20', '19']}, b_over={'dh': ['19', '20']}, a_entry={'dh': ['20', '19']}, b_entry={'dh': ['19', '20']})
+    for start, conf in (('plain', S.base_confs()), ('cookie', S.base_confs()), ('double', S.base_confs(**ke)),
                         ('invalid-ke', S.base_confs(a_over={'dh': ['20', '19']}, b_over={'dh': ['19', '20']},
                                                     a_entry={'dh': ['20', '19']}, b_entry={'dh': ['19', '20']}))):
         for n in range(0, k + 1):
@@ -295,6 +310,16 @@ def cases():
                 if start != 'plain' and ck.quick and n == k and ops[0] not in ('newA', 'rekeyIkeA', 'rekeyChildB'):
                     continue
                 out.append(dict(label='history:%s:%s' % (start, '.'.join(ops) or 'init'), confs=conf, ops=ops, start=start))
+    # (c') two negotiations in progress at once (different IKE_SAs of one connection after a simultaneous initiation,
+    # or queued behind each other on one IKE_SA), with INVALID_KE retries on the way
+    conc = ('newA', 'rekeyChildA', 'rekeyChildA~', 'rekeyIkeA', 'rekeyIkeA~', 'newB', 'rekeyChildB~')
+    for start in ('double', 'invalid-ke'):
+        conf = S.base_confs(**ke)
+        for x, y in itertools.product(conc, repeat=2):
+            if x == y or (ck.quick and start == 'invalid-ke' and (x.endswith('~') or y.endswith('~'))):
+                continue
+            out.append(dict(label='concurrent:%s:%s|%s' % (start, x, y), confs=conf, ops=('%s|%s' % (x, y), 'rekeyChildA', 'rekeyChildB~'),
+                            start=start))
     return out
 
 
@@ -338,7 +363,7 @@ def main():
         fam = c['label'].split(':')[0]
         fam_counts[fam] += 1
         for sig, msg in probs:
-            gen = c['label'] if fam != 'history' else 'history:%s' % c['label'].split(':')[1]
+            gen = c['label'] if fam not in ('history', 'concurrent') else '%s:%s' % (fam, c['label'].split(':')[1])
             ck.violation('%s:%s' % (sig, gen), '%s [case %s]' % (msg, c['label']), dict(label=c['label']))
     ck.coverage.update(states=total_negotiations + len(CASES), transitions=total_negotiations, evaluations=len(CASES),
                        distinct_nontrivial=len({c['label'] for c in CASES}), traces_validated_against_impl=validated,
